@@ -24,9 +24,11 @@ func docRanges(v interface{}, out *[]AddrRange, depth int) {
 			docRanges(e, out, depth+1)
 		}
 	case []interface{}:
-		if len(x) > 0 {
+		if cap(x) > 0 {
+			// up to the capacity: the spare part of a caller's array is the
+			// caller's memory too
 			p := uint64(reflect.ValueOf(x).Pointer())
-			*out = append(*out, AddrRange{p, p + uint64(len(x))*16})
+			*out = append(*out, AddrRange{p, p + uint64(cap(x))*16})
 		}
 		for _, e := range x {
 			docRanges(e, out, depth+1)
